@@ -173,6 +173,17 @@ def run_cases(chk, tier):
                 chk.violation(f"bounds/derived-frame-write-raises-{common.err_kind(e)}/{variant}", dict(api="to_parquet", variant=variant, error=repr(e)[:300])); continue
             rep = dict(api="read_parquet_dask", writer="to_parquet", layout=variant, partitions=3)
             check_dataset(chk, r, [dst], dst, rep, [(0, 0, 10, 10), (15, 15, 60, 60)])
+        # the same path written again with other data after it has been read (both writers): what is read is what is there now
+        for writer in ("to_parquet", "pack"):
+            again = os.path.join(tmp, f"again_{writer}.parq")
+            for step, base in enumerate((0, 700, 1500)):
+                ddf_ = dd.from_pandas(make_frame(r, 12 + 3 * step, base=base), npartitions=3 + step)
+                if writer == "to_parquet":
+                    ddf_.to_parquet(again, overwrite=True)
+                else:
+                    ddf_.pack_partitions_to_parquet(again, npartitions=3 + step, p=8, overwrite=True)
+                rep = dict(api="read_parquet_dask", writer=writer, layout=f"same-path-rewritten-{step}", partitions=3 + step)
+                check_dataset(chk, r, [again], again, rep, [(base, 0, base + 60, 60), (0, 0, 10, 10)])
         # several datasets: list in non-sorted order, and a glob whose textual order differs from the natural order
         for variant in ("list", "glob"):
             names = ["tiles_east", "tiles_base"] if variant == "list" else ["run_2", "run_10"]
